@@ -128,6 +128,10 @@ fn absorb(agg: &mut Agg, res: &run::RunResult, own: &str, run_idx: u64, args: &A
         }
         match r.outcome.load(Relaxed) { 2 => Agg::bump(&mut agg.other, "try_sync_busy", 1), 3 => Agg::bump(&mut agg.other, "future_cancelled_mid_operation", 1), 5 => Agg::bump(&mut agg.other, "expected_panics", 1), _ => {} }
         if r.pendings.load(Relaxed) > 0 { Agg::bump(&mut agg.other, "operations_suspended_at_least_once", 1); }
+        if r.via_raw.load(Relaxed) { Agg::bump(&mut agg.other, &format!("issued_through_scheduler_level_api:{}", d.kind.name()), 1); }
+    }
+    for (kind, _obj, loud) in ctx.attempts.lock().unwrap().iter() {
+        Agg::bump(&mut agg.other, &format!("attempt_on_panicked_object:{}:{}", exec::ATTEMPT_NAMES[*kind as usize], if *loud { "failed_loudly" } else { "quiet" }), 1);
     }
     for (i, c) in ctx.wake_classes.iter().enumerate() {
         let n = c.load(Relaxed) as u64;
